@@ -3,6 +3,7 @@ import BiotiteModel.Proofs.C08
 import BiotiteModel.Proofs.C08AffOpt
 import BiotiteModel.Proofs.C08Semi
 import BiotiteModel.Proofs.C08Prefix
+import BiotiteModel.Proofs.C08Trace
 import BiotiteModel.Gen.C08
 /-!
 # C08 — property theorems (optimal pairwise alignment returns the true optimum)
@@ -423,6 +424,61 @@ theorem C08_checkAll_sound (a b : Seq) (M : Mat) (gap : Gap) (mode : Mode) (mx :
   simp only [checkAll, Bool.and_eq_true, decide_eq_true_eq, List.all_eq_true] at h
   exact ⟨h.1.1, h.1.2, h.2⟩
 
+/-! ## Traceback on the model (linear penalties): `get_trace_linear` bits + `follow_trace` -/
+
+/-- global / semi-global: every trace `followLin` yields from the filled table is an end-to-end alignment whose
+public score is the optimum. -/
+theorem C08_traces_valid (mode : Mode) (hm : mode ≠ .local) (M : Mat) (g : Int) (a b : Seq) (mx : Nat) (aln : Aln)
+    (h : aln ∈ tracesLin mode M g a b (linRec mode M g a b).val mx) :
+    Valid mode a b aln ∧ score mode (.lin g) M a b aln = opt mode M g a b := by
+  have hmem := List.mem_of_mem_take h
+  obtain ⟨pre, p0, he, hw, hs, h0⟩ := followLin_good mode M g a b mx _ _ _ _ aln hmem
+  have hp0 := dirs_nil_origin mode hm M g a b p0 h0
+  subst hp0
+  simp only [List.append_nil] at he
+  subst he
+  cases mode with
+  | global =>
+    refine ⟨hw, ?_⟩
+    rw [C08_checker_score_lin _ _ _ _ _ (by decide), scoreLin_eq_pos M g a b aln (0, 0)]
+    exact hs
+  | semi =>
+    refine ⟨hw, ?_⟩
+    rw [C08_scorePub_semi M g a b aln hw, scoreSemiPos_eq_pos M g a b aln (0, 0)]
+    exact hs
+  | «local» => exact absurd rfl hm
+
+/-- local: every trace followed from a start cell `p` of the table is a contiguous alignment ending at `p` whose
+score is the value of `p` (`align_optimal` starts at the cells holding the table maximum `optLocal`). -/
+theorem C08_traces_valid_local (M : Mat) (g : Int) (a b : Seq) (mx fuel c : Nat) (p : Nat × Nat)
+    (hi : p.1 ≤ a.length) (hj : p.2 ≤ b.length) (aln : Aln)
+    (h : aln ∈ (followLin (traceDirs .local M g a b (linRec .local M g a b).val) mx fuel p [] c).1) :
+    ValidLocal a b aln ∧ score .local (.lin g) M a b aln = (linRec .local M g a b).val p.1 p.2 := by
+  obtain ⟨pre, p0, he, hw, hs, _⟩ := followLin_good .local M g a b mx _ _ _ _ aln h
+  simp only [List.append_nil] at he
+  subst he
+  refine ⟨⟨p0.1, p0.2, p.1, p.2, hw, hi, hj⟩, ?_⟩
+  rw [C08_checker_score_lin _ _ _ _ _ (by decide), scoreLin_eq_pos M g a b aln p0]
+  exact hs
+
+/-- `follow_trace` started with counter 1 returns at most `max_number` traces (before the final truncation). -/
+theorem C08_traces_count (dirs : Nat × Nat → List Dir) (mx fuel : Nat) (hmx : 1 ≤ mx) (p : Nat × Nat) :
+    (followLin dirs mx fuel p [] 1).1.length ≤ mx := by
+  obtain ⟨h1, _, h3⟩ := followLin_count dirs mx fuel p [] 1
+  have := h3 hmx
+  omega
+
+/-- the traceback returns at least one alignment (the fuel `n + m + 1` suffices). -/
+theorem C08_traces_nonempty (mode : Mode) (M : Mat) (g : Int) (a b : Seq) (mx : Nat) (hmx : 1 ≤ mx) :
+    tracesLin mode M g a b (linRec mode M g a b).val mx ≠ [] := by
+  unfold tracesLin
+  have := followLin_nonempty mode M g a b mx (a.length + b.length + 1) (a.length, b.length) [] 1 (by simp)
+  intro h
+  rw [List.take_eq_nil_iff] at h
+  rcases h with h | h
+  · omega
+  · exact this h
+
 /-- Known finding, as modelled: affine + not local + an empty sequence raises IndexError. -/
 theorem C08_affine_empty_defect : raisesIndexError .global (.aff (-2) (-1)) [0, 0] [] = true := by decide
 
@@ -469,5 +525,10 @@ example : optLin (Mat.ofRows [[1, -1], [-1, 1]]) (-2) ([0, 1].take 1) ([1, 0].ta
 /-- the public semi-global score of a concrete alignment: terminal gap free, inner columns scored -/
 example : score .semi (.lin (-2)) (Mat.ofRows [[1, -1], [-1, 1]]) [0, 1] [1] [.gapB 0, .both 1 0] = 1 := by decide
 example : scoreSemiPos (Mat.ofRows [[1, -1], [-1, 1]]) (-2) [0, 1] [1] (0, 0) [.gapB 0, .both 1 0] = 1 := by decide
+/-- two co-optimal traces of `AA` vs `A` with a zero gap penalty; `max_number = 1` keeps one -/
+example : (tracesLin .global (Mat.ofRows [[1]]) 0 [0, 0] [0] (linRec .global (Mat.ofRows [[1]]) 0 [0, 0] [0]).val 5).length = 2 := by
+  decide
+example : (tracesLin .global (Mat.ofRows [[1]]) 0 [0, 0] [0] (linRec .global (Mat.ofRows [[1]]) 0 [0, 0] [0]).val 1).length = 1 := by
+  decide
 
 end BiotiteModel.C08
